@@ -160,6 +160,27 @@ pub fn run(out: &mut Out, tier: &str, seed: u64) {
             }
         }
     }
+    // authentic messages pulled (and pushed) from every counter class, the wrap of the 32-bit message counter included
+    for ctr in [1u32, 2, 0x7fffffff, 0xfffffffe, 0xffffffff] {
+        use dryoc::classic::crypto_secretstream_xchacha20poly1305::*;
+        let mut n12 = [0u8; 12]; n12[..4].copy_from_slice(&ctr.to_le_bytes()); n12[4..].copy_from_slice(&hdr[16..24]);
+        for (mlen, tag) in [(0usize, 0u8), (5, 0), (33, 2), (1, 3)] {
+            let m = rng.bytes(mlen);
+            let mut s = SStream::from_parts(&k, &n12);
+            let c = s.push(&m, b"ad", tag);
+            let mut st = State::verif_from_parts(&k, &n12);
+            let r = d_pull(&mut st, &c, b"ad", mlen);
+            out.search_evaluations += 2;
+            let rp = json!({"op":"stream.pull","k":hx(&k),"nonce":hx(&n12),"c":hx(&c),"ad":hx(b"ad"),"counter":ctr});
+            if r.0.is_panic() { out.hit("stream.pull.panics-on-authentic-message", format!("message counter {:#x}", ctr), rp.clone()); }
+            else if !(r.0.is_ok() && r.1 == m && r.2 == tag) { out.hit("stream.pull.authentic-not-recovered", format!("message counter {:#x} class {}", ctr, r.0.class()), rp.clone()); }
+            else if st.verif_parts() != s.parts() { out.hit("stream.pull.state-differs-from-libsodium", format!("message counter {:#x}", ctr), rp.clone()); }
+            let mut st2 = State::verif_from_parts(&k, &n12);
+            let pr = guard(|| { let mut cc = vec![0u8; mlen + 17]; crypto_secretstream_xchacha20poly1305_push(&mut st2, &mut cc, &m, Some(b"ad"), tag).map(|_| cc) });
+            if pr.is_panic() { out.hit("stream.push.panics", format!("message counter {:#x}", ctr), rp.clone()); }
+            else if pr.ok().as_ref() != Some(&c) { out.hit("stream.push.differs-from-libsodium", format!("message counter {:#x}", ctr), rp.clone()); }
+        }
+    }
     // authentic stream messages carrying every tag byte, pushed by libsodium and by the classic API
     for tag in 0..=255u8 {
         for mlen in [0usize, 1, 33] {
